@@ -337,6 +337,24 @@ def identity_stream(ctx):
     for gi, (kind, label, routes) in enumerate(groups):
         for route, o in routes:
             objs.append((gi, kind, label, route, o))
+    # the same key under OTHER certificates (renewed certificate: other nonce / serial) - still the same key
+    import base64 as _b64
+    from paramiko.message import Message as _Msg
+    for kind_, fname, cname in (("rsa", "rsa.key", "rsa.key-cert.pub"), ("ec", "ecdsa-256.key", "ecdsa-256.key-cert.pub"),
+                                ("ed", "ed25519.key", "ed25519.key-cert.pub")):
+        gidx = next(i for i, (k, lbl, _r) in enumerate(groups) if lbl == fname)
+        cert = _b64.b64decode(open(lk.support(cname)).read().split()[1])
+        m = _Msg(cert)
+        tname = m.get_string()
+        nonce = m.get_string()
+        for v in (1, 2):
+            nonce2 = bytes((x + v) % 256 for x in nonce)
+            cert2 = lk.sstr(tname) + lk.sstr(nonce2) + m.get_remainder()
+            cls_ = lk.key_class(kind_)
+            k1 = cls_.from_private_key_file(lk.support(fname))
+            k1.load_certificate(_Msg(cert2))
+            objs.append((gidx, kind_, fname, "private-file+cert#%d" % (v + 1), k1))
+            objs.append((gidx, kind_, fname, "public-bytes:cert-blob#%d" % (v + 1), cls_(data=cert2)))
     # near misses: keys that differ in exactly one component (one bit of n at any height, e, the sign of y, one
     # bit of an Ed25519 key) must be different keys
     import paramiko
@@ -394,6 +412,13 @@ def identity_stream(ctx):
                 ctx.fail("asbytes-public-material", case, "equal keys have different public blobs")
         if (a[4] != b[4]) == eq:
             ctx.fail("ne-consistent", case, "!= is not the negation of ==")
+    by_group = {}
+    for g, _k, lbl, _r, o in objs:
+        by_group.setdefault((g, lbl), []).append(o)
+    for (g, lbl), os_ in by_group.items():
+        if len(set(os_)) != 1 or any(o not in os_[:1] for o in os_) or any({o: 1}.get(os_[0]) != 1 for o in os_):
+            ctx.fail("hash-public-material", {"key": lbl}, "%d objects of one key: set has %d members / `in` or dict lookup fails"
+                     % (len(os_), len(set(os_))))
     for gi, (kind, label, routes) in enumerate(groups):
         s = {o for _r, o in routes}
         if len(s) != 1:
